@@ -18,7 +18,7 @@ EXPLANATION = (
 ASSUMPTIONS = ["pika::detail::throws_if returns normally when the caller passed its own error_code",
                "util::yield_while(f) returns only when f() returned false"]
 THOROUGH_CONFIGS = [["-UNDEBUG", "-DPIKA_DEBUG"]]
-FLOORS = {"C19.R1": 6, "C19.R2": 5, "C19.R3": 4, "C19.R4": 9, "C19.R5": 3, "C19.R6": 3}
+FLOORS = {"C19.R1": 6, "C19.R2": 5, "C19.R3": 4, "C19.R4": 9, "C19.R5": 3, "C19.R6": 3, "C19.R7": 1}
 
 POOL = r"^pika::threads::detail::scheduled_thread_pool::"
 STATE_CHANGERS = {"suspend_internal", "suspend_processing_unit_internal", "resume_internal", "resume_processing_unit_direct",
@@ -35,6 +35,11 @@ def run(rep, tier):
     rep.rule("C19.R2", "K5/K2: PU state running->pre_sleep by CAS under the PU mutex then wait; suspend(): store sleeping -> wait -> CAS sleeping->running; resume loops until not sleeping")
     rep.rule("C19.R3", "K7: scheduling_loop calls scheduler.suspend only in pre_sleep with !running, terminated cleaned, queue length 0; get_next_thread gets 'running'")
     rep.rule("C19.R4", "K6: create_thread/schedule_thread/schedule_thread_last pick the worker via select_active_pu before enqueuing")
+    rep.rule("C19.R7", "K7 (evaluated for 1..9 workers): who looks at a sleeping worker's queue. local_priority_queue_scheduler::on_start_thread builds, per worker, the list of "
+             "queues it steals from by walking its neighbours left/right up to a radius; taken over all three passes (same core / same NUMA domain / the rest) the walk "
+             "visits every other worker exactly once - evaluated with the pass predicate 'true' for every pool size and worker. Work that landed on a suspended worker's "
+             "queue (submitted while no worker was running, or after every try_lock lost) is run by the others only through these lists: a worker missing from all of them "
+             "strands that work until its owner is resumed (odd pool sizes when the radius is rounded down)")
     rep.rule("C19.R6", "K6 (what blocks the sleep must be runnable by the sleeper): a worker that is being suspended (pre_sleep: 'running' is false) goes to sleep only "
              "when get_queue_length(its number) is 0.  Every queue member that get_queue_length(num_thread) counts is therefore popped by get_next_thread(num_thread, ..) "
              "on a path that does not require 'running' - otherwise a task that arrives in such a queue while the worker is in pre_sleep can neither be run by it nor "
@@ -444,6 +449,63 @@ def run(rep, tier):
 
 
     sleep_blockers_rule(rep)
+
+    # ---- R7: every other worker is a victim of every worker
+    from engine.kinds import interp as _in7, eval_tree as _ev7, Unknown as _Un7
+    OS7 = facts(rep, lib("thread_pools", "src/scheduled_thread_pool.cpp"), [r"^pika::threads::detail::local_priority_queue_scheduler::on_start_thread$"])
+    ost = [f for f in OS7.fns if f.parent == -1 and not f.pattern and f.qname.endswith("::on_start_thread")]
+    if not ost:
+        raise AnalysisBroken("local_priority_queue_scheduler::on_start_thread not instantiated")
+    fn7 = ost[0]
+    rdecl = [e for _, _, e in fn7.all_events() if e.get("k") == "decl" and e.get("var") == "radius"]
+    itd = [e for _, _, e in fn7.all_events() if e.get("k") == "decl" and e.get("init") is not None and strip(e["init"]).get("k") == "lambda" and
+           any(x.get("k") == "call" and callee_short(x) == "push_back" for _, _, x in (OS7.by_id.get(strip(e["init"]).get("id")).all_events() if OS7.by_id.get(strip(e["init"]).get("id")) else []))]
+    if not rdecl or not itd:
+        raise AnalysisBroken("on_start_thread: the steal radius / the neighbour walk were not found")
+    walk = OS7.by_id[strip(itd[0]["init"])["id"]]
+    fpar = [p_["name"] for p_ in walk.params][0] if walk.params else "f"
+    bad7, nsamp7 = None, 0
+
+    def model7(node, env_):
+        cs = callee_short(node) or ""
+        if cs in ("lround", "llround", "round"):
+            v = _ev7(node["args"][0], env_)
+            import math
+            return int(math.floor(abs(v) + 0.5)) * (1 if v >= 0 else -1)
+        if cs in ("floor", "ceil", "trunc"):
+            import math
+            return int(getattr(math, cs)(_ev7(node["args"][0], env_)))
+        if T(node).startswith(fpar + "("):
+            return True
+        raise _Un7(T(node))
+    for n in range(1, 10):
+        try:
+            radius = _ev7(rdecl[0]["init"], {"num_threads": n, "$call": model7})
+        except _Un7 as ex:
+            raise AnalysisBroken("on_start_thread: the steal radius is not evaluable (%s)" % ex)
+        for k in range(n):
+            seen = []
+
+            def on_ev(ev, env_, seen=seen):
+                if ev.get("k") == "call" and callee_short(ev) == "push_back" and ev.get("args"):
+                    seen.append(_ev7(ev["args"][0], env_))
+            try:
+                res = _in7(walk, {"num_threads": n, "num_thread": k, "radius": radius, "$call": model7}, max_visits=24, unknown_both=False, on_event=on_ev, max_paths=2)
+            except _Un7 as ex:
+                raise AnalysisBroken("on_start_thread: the neighbour walk is not evaluable (%s)" % ex)
+            nsamp7 += 1
+            if [r[0] for r in res] not in (["exit"], ["return"]):
+                raise AnalysisBroken("on_start_thread: the neighbour walk did not run to its end for %d workers (%s)" % (n, [r[0] for r in res]))
+            want = sorted(x for x in range(n) if x != k)
+            if sorted(seen) != want and bad7 is None:
+                bad7 = "with %d workers (radius %s) worker %d walks over %s - never over %s%s" % (n, radius, k, seen, sorted(set(want) - set(seen)),
+                                                                                               ", twice over %s" % sorted(set(x for x in seen if seen.count(x) > 1)) if len(seen) != len(set(seen)) else "")
+    if bad7:
+        rep.bad("C19.R7", fn7, loc_of(rdecl[0]), "steal-coverage", "on_start_thread: %s: no pass can put the missing workers on its victim list, so work sitting in their queues while "
+                "they are suspended is never looked at by this worker (with 3 workers: by nobody)" % bad7)
+    else:
+        rep.ok("C19.R7", fn7, "the neighbour walk visits every other worker exactly once for 1..9 workers (%d evaluations)" % nsamp7, sites=nsamp7)
+
 
 def conj_atoms(e):
     e = strip(e)
